@@ -370,11 +370,51 @@ var c19BuiltinsChanged = false
 
 var c19LineRe = regexp.MustCompile(`line: (\d+), col`)
 
+// c19Directed: one case per template of c19Modules and per probe that looks at what the template may leave behind
+// (not left to the random draw): history = the template, probe = the later program, exec style, against a new process
+func c19Directed(c *Ctx) {
+	for ti, t := range c19Modules {
+		u := 900000 + ti*1000 + int(c.Seed%997)
+		hist := strings.ReplaceAll(strings.ReplaceAll(t, "%d", fmt.Sprint(u)), "%%", "%") + "\n"
+		probes := c19LeakProbes([]string{hist})
+		probes = append(probes, "\"abc\".p\n[1, 2].len.p\n(255 + 1).p")
+		for pi, pr := range probes {
+			if !c.Mine() {
+				continue
+			}
+			probe := pr + "\n"
+			it := NewInterp()
+			it.base.InjectIO(it.in, it.out)
+			it.Run(hist, "")
+			it.base.InjectIO(it.in, it.out)
+			after := obsOf(it.Run(probe, ""))
+			after.Consts = constsFingerprint(it.base)
+			rec := Rec{Src: hist + "=====\n" + probe, NT: true, Tags: []string{"directed", fmt.Sprintf("template-%d", ti), "probe-" + after.Kind}}
+			fresh, err := freshObs(c19Req{Style: "exec", Name: fmt.Sprintf("d%d_%d_test.pangaea", ti, pi), Src: probe, Stdin: ""})
+			if err != nil {
+				rec.Skip = "reference-failed"
+				rec.Impl = err.Error()
+				c.Em.Emit(rec)
+				continue
+			}
+			rec.Impl = after.String()
+			if after != fresh {
+				rec.Oracle = fmt.Sprintf("after the history: %s ; in a new process: %s", after.String(), fresh.String())
+			}
+			if len(rec.Impl) > 3000 {
+				rec.Impl = rec.Impl[:3000]
+			}
+			c.Em.Emit(rec)
+		}
+	}
+}
+
 func genC19(c *Ctx) {
 	n := 640
 	if c.Thorough() {
 		n = 8000
 	}
+	c19Directed(c)
 	for i := 0; i < n; i++ {
 		style := []string{"exec", "exec", "runtest", "model", "exec", "import", "runtest", "model"}[i%8]
 		if style == "import" {
